@@ -520,6 +520,11 @@ class Run:
             "known_findings_seen": self.known_hits,
             "notes": self.notes,
         }
+        if level == "partial":
+            # the evidence schema has no "partial" level: the claim is a proof-level one whose PARTIAL scope is
+            # stated in MANIFEST.json and DESIGN.md; the flag records it here too
+            level = "proof"
+            cov["partial"] = True
         cov.update(self.extra)
         if proof and "leanchecker" in proof:
             cov["leanchecker"] = proof["leanchecker"]
